@@ -118,6 +118,38 @@ CLAIMED.update({
             "DESIGN.md section 4, C20"),
 })
 
+CLAIMED.update({
+    "C06": ("bounded symbolic execution of the real iterative connect (Composition.connect, ConnectHelper) with "
+            "spec-driven harness components, symbolic start offsets and listing order (symx proxies + z3)",
+            "For a catalogue of 10 dependency scenarios (declared / rule-transferred / manually forwarded infos, initial "
+            "pulls, staged initial data, acyclic and cyclic rings, partly stuck compositions; up to 4 components), every "
+            "listing order and all start offsets: connect() terminates within the iteration bound; if an independent least "
+            "fix-point says acyclic, everything is connected, all infos/data exchanged, z3 proves a publication exists for "
+            "the composition start and for the producer's own start, initial pulls deliver the producer's value; otherwise "
+            "FinamCircularCouplingError names exactly the complement of the fix-point; every single ConnectHelper.connect "
+            "call reports CONNECTED/CONNECTING/IDLE consistently with the observed exchanges. Mostly a structural case "
+            "split; the solver's part is the start-time arithmetic and path feasibility.",
+            "DESIGN.md section 4, C06"),
+    "C14": ("symbolic execution of the real grid shape logic with symbolic axis lengths (symx + z3) plus an "
+            "engine-directed complete case split over layouts and operation sequences on concrete small grids",
+            "Closed forms of data_shape/data_size/point_count/cell_count proved by z3 for ALL axis lengths >= 1 in 1-3 "
+            "dimensions and all flags, including after a data_location change; for every concrete small Uniform/"
+            "Rectilinear/ESRI grid layout (order, axes_reversed, directions, location, degenerate axes) the data_axes / "
+            "data_points / cells / cell_centers / unstructured-cast consistency holds; every sequence of up to 4-5 reads, "
+            "copies and location changes leaves shape/size/points current. The layout and ops parts use concrete "
+            "coordinates (enumeration, stated as such).",
+            "DESIGN.md section 4, C14"),
+    "C15": ("symbolic execution of the real to_canonical/from_canonical on arrays of symbolic shape (LazyArr over an "
+            "uninterpreted function; symx + z3), and of the real Output->Input grid transform with symbolic payloads",
+            "For all axis lengths >= 1 (1-3 D), all layout flags and both locations z3 proves canonical[ix,iy,iz] is the "
+            "element at ascending coordinate indices and from_canonical∘to_canonical = identity (index-term equality on "
+            "symbolic in-range indices) with the right shapes; for every pair of layouts of the same small geometry "
+            "(Uniform, Rectilinear, ESRI; cells/points; masked/unmasked; data with time axis) the delivered array has the "
+            "target shape and carries each symbolic value at the same physical location; compatible_with ⇔ same set of "
+            "data locations over geometry/crs/location/layout variants.",
+            "DESIGN.md section 4, C15"),
+})
+
 PENDING = {}
 
 NOT_APPLICABLE = {
